@@ -118,6 +118,9 @@ def slice_value(I, obj, sl):
             return I.new_alist(core.mk_unary(I, Drop1, t), obj.is_tuple)
         if st == -1 and lo is None and hi is None:
             return I.new_alist(core.mk_unary(I, Reverse, t), obj.is_tuple)
+        if st in (None, 1) and all(x is None or isinstance(x, int) or (is_z3(x) and x.sort() == z3.IntSort())
+                                   for x in (lo, hi)):
+            return I.new_alist(core.mk_slice(I, t, lo, hi), obj.is_tuple)
         raise Unsupported("slice [%s:%s:%s] of an abstract list" % (lo, hi, st))
     if hasattr(obj, "slice_value"):
         return obj.slice_value(I, sl)
